@@ -43,7 +43,11 @@ use crate::{
 use super::util::{self, Args, CaseOut, Rng};
 
 const DOMAIN: u16 = 90;
-const WATCHDOG: StdDuration = StdDuration::from_millis(2500);
+// A wedged call spins for ever, so the watchdog can be generous: it only costs time when something hangs.  A first
+// time-out is confirmed by re-running the case on a fresh participant with a longer watchdog, so that a slow, loaded
+// machine is never reported as a hang.
+const WATCHDOG: StdDuration = StdDuration::from_millis(10_000);
+const WATCHDOG_CONFIRM: StdDuration = StdDuration::from_millis(40_000);
 
 #[derive(Serialize, Deserialize, Clone, Debug, PartialEq)]
 pub struct Msg {
@@ -530,17 +534,22 @@ impl Pool {
   }
   /// Observation of one case as a Coq term.
   fn run(&mut self, idx: usize, c: &Case) -> (String, bool) {
+    let (out, hung) = self.run_once(idx, c, WATCHDOG);
+    if !hung {
+      return (util::list(out), false);
+    }
+    let (out, hung) = self.run_once(idx, c, WATCHDOG_CONFIRM);
+    (util::list(out), hung)
+  }
+
+  fn run_once(&mut self, idx: usize, c: &Case, watchdog: StdDuration) -> (Vec<String>, bool) {
     self.jobs.send((idx, c.clone())).expect("worker alive");
     let mut out = Vec::new();
     let mut hung = false;
     loop {
-      match self.res.recv_timeout(WATCHDOG) {
+      match self.res.recv_timeout(watchdog) {
         Ok(WMsg::Res(s)) => {
-          let stop = s.starts_with("CPanic");
           out.push(s);
-          if stop {
-            // the rest of the case is not executed
-          }
         }
         Ok(WMsg::Done) => break,
         Err(_) => {
@@ -558,7 +567,7 @@ impl Pool {
       std::mem::forget(old);
       self.hangs = hangs;
     }
-    (util::list(out), hung)
+    (out, hung)
   }
 }
 
